@@ -7,12 +7,13 @@ from vlib.runner import PropCheck, Case
 
 class PROP(PropCheck):
     id = "C09"
+    mismatch_is_failure = False
     theorems = ["C09_parse_wf", "C09_misplaced_rejected", "C09_rejection_has_diagnostic", "C09_accepts_example",
-                "C09_documented_grammar_accepted", "C09_accepted_tree_is_program", "C09_accepted_is_balanced", "C09_unbalanced_rejected"]
-    audit_modules = ["C09", "C09b", "C09c"]
+                "C09_documented_grammar_accepted", "C09_accepted_tree_is_program", "C09_accepted_is_balanced", "C09_unbalanced_rejected", "C11_parse_sound"]
+    audit_modules = ["C09", "C09b", "C09c", "C11b"]
     coq_imports = ["Token", "LexImpl", "Ast", "ParseImpl", "Obs"]
     model_targets = ["theories/Obs.vo"]
-    prop_targets = ["theories/Props/C09.vo", "theories/Props/C09b.vo", "theories/Props/C09c.vo"]
+    prop_targets = ["theories/Props/C09.vo", "theories/Props/C09b.vo", "theories/Props/C09c.vo", "theories/Props/C11b.vo"]
     harness_mode = "parse"
     trusted_base = [
         "Coq 8.16.1 kernel and bytecode VM (vm_compute evaluates scanner + parser models on every case)",
